@@ -271,7 +271,7 @@ def parseLua : List Bytes → Res
   | [] => .error (.body (.lit .luaEmpty))
   | name :: args =>
     match findEntry luaTable (kw name) with
-    | none => .error (.body (.fmt .luaUnknownCmd (kw name)))
+    | none => .error (.unknown (kw name))
     | some _ => parseWith luaTable (name :: args)
 
 
